@@ -56,7 +56,7 @@ TOL_RS = {"64": 1e-10, "32": 2e-4}  # float32 resample content: measured 6.4e-7
 
 
 def plan(tier, seed):
-    reps = 30 if tier == "quick" else 600
+    reps = 30 if tier == "quick" else 2400
     specs = []
     for r in range(reps):
         for (kind, w), ndim, dk in itertools.product(KINDS, (1, 2, 3, 4), DKINDS):
